@@ -150,7 +150,7 @@ func c20Run(format string, doAppend bool, tag string) {
 		if doAppend && t == 0 {
 			want = append(append([]byte{}, pre...), want...)
 		}
-		if stateful && reopened[t] && verifKnown("C20-reopen-after-eviction") {
+		if stateful && reopened[t] && c20Fixed == nil && verifKnown("C20-reopen-after-eviction") {
 			// known finding: excluded region = this target was re-opened after an eviction and the
 			// format keeps per-document state (header / brackets)
 			continue
